@@ -86,11 +86,24 @@ _VOLATILE = _re.compile(r"[0-9a-fA-F]{8}-[0-9a-fA-F]{4}-[0-9a-fA-F]{4}-[0-9a-fA-
 
 
 class Collector(logging.Handler):
-    def __init__(self, rec: Rec):
+    """The caller's handler(s) on labtech.logger.  `second` is a further handler of the caller (it records
+    nothing itself).  Either of them being invoked inside a simulated task process means that a handler of
+    the caller is still attached there (a FileHandler would write every record a second time)."""
+
+    def __init__(self, rec: Rec, second: bool = False):
         super().__init__(level=0)
         self.rec = rec
+        self.second = second
 
     def emit(self, record):
+        sim = self.rec.sim
+        e = sim.me() if sim is not None and not sim.dead else None
+        if e is not None and e.kind == 'worker':
+            self.rec.ev('log-in-worker', e.name, 'second' if self.second else 'first')
+            self.rec.fired('caller-handler-invoked-in-worker')
+            return
+        if self.second:
+            return
         self.rec.logs.append(record)
         try:
             msg = record.getMessage()
@@ -117,9 +130,11 @@ class RunProbe:
         self.chdir_to = None
         self.chdir_nodes: set = set()
         self.helper_nodes = {int(n) for n in (sc.get('helpers') or [])}
+        self.mp_child_nodes = {int(n) for n in (sc.get('mp_children') or [])}
         self.save_armed: Optional[int] = None     # node whose save window is open (S0/S1)
         self.embed_ctx = sc.get('embed_ctx', True)
         self.on_end = None
+        self.on_begin = None
 
     def _who(self):
         if self.sim is not None:
@@ -129,6 +144,8 @@ class RunProbe:
 
     def begin(self, task):
         n = task.ident
+        if self.on_begin is not None:
+            self.on_begin(task)
         e, who = self._who()
         if e is not None and e.kind == 'worker':
             e.node = n
@@ -169,6 +186,13 @@ class RunProbe:
         self.rec.ev('readfail', task.ident, dep.ident, type(exc).__name__, who)
 
     def work(self, task):
+        if task.ident in self.mp_child_nodes:
+            # the task starts a child of its own through multiprocessing (a Pool, a ProcessPoolExecutor):
+            # multiprocessing refuses that in a daemonic process
+            e, _w = self._who()
+            self.rec.fired('task-starts-multiprocessing-child')
+            if e is not None and e.kind == 'worker' and getattr(e.proc, 'daemon', None):
+                raise AssertionError('daemonic processes are not allowed to have children')
         if task.ident in self.helper_nodes:
             # the task forks a helper process that outlives it (it inherits every descriptor of the task process)
             e, _w = self._who()
@@ -471,7 +495,7 @@ def key_dir(storage_dir: str, task) -> str:
 def quiet_logger(rec: Rec):
     """labtech.logger delivers to our collector only, for the duration of a run."""
     saved = (list(lt_logger.__dict__['handlers']), lt_logger.level, lt_logger.propagate)
-    lt_logger.__dict__['handlers'] = [Collector(rec)]
+    lt_logger.__dict__['handlers'] = [Collector(rec), Collector(rec, second=True)]
     lt_logger.propagate = False
     return saved
 
@@ -763,6 +787,8 @@ def _execute(sc: dict, ch: Choices, storage_dir: Optional[str], storage_obj=None
     if backend == 'serial':
         inner = SerialRunnerBackend()
         rb = SpyBackend(inner, rec, retention)
+        if retention is not None:
+            probe.on_begin = retention.at_begin
     elif backend == 'sim':
         host = S1Host(rec, ch.stream('sched'), cpu_count=sc.get('cpu_count', 2),
                       **(sc.get('s1') or {}))
